@@ -20,7 +20,7 @@ RULE = ('exhaustive over the finite table: every allowed extra-argument name of 
         'passed) are compared with the input shapes of the INSTALLED botocore S3 model: A in shape(O) => O received A unchanged; A not '
         'in shape(O) => O did not receive it; copy-source names arrive at HeadObject under their mapped names; a full-object checksum '
         'only at PutObject / CompleteMultipartUpload together with ChecksumType=FULL_OBJECT and the matching ChecksumAlgorithm on the '
-        'create/part requests; CRC32 default under when_supported; disallowed names raise before any request.  non-trivial = a cell in '
+        'create/part requests; CRC32 default under when_supported; disallowed names raise before any request; the when_supported table is run a second time with the s3transfer loggers at DEBUG.  non-trivial = a cell in '
         'which at least one operation was compared; distinct = distinct (front-end, method, mode, argument set)')
 ASSUMPTIONS = ['HeadObject issued by a copy addresses the SOURCE object: only the statement\'s mapped copy-source names (and what the '
                'library chooses to add) are demanded there, destination-side names are not',
@@ -285,6 +285,7 @@ def gen_cases(tier, seed):
     cases.append({'type': 'reject'})
     cases.append({'type': 'legacy'})
     cases.append({'type': 'procpool'})
+    cases += [dict(c, debug_log=True) for c in cases if c['type'] != 'reject' and c.get('checksum_mode', 'when_supported') == 'when_supported']
     return [c for c in cases if c.get('cells', True)]
 
 
@@ -446,7 +447,22 @@ def run_procpool(case):
     return viol, stats, keys
 
 
+from ..e2e import debug_logging  # noqa: E402
+
+
 def run_case(case):
+    with debug_logging(case.get('debug_log')):
+        r = _run_case(case)
+    if case.get('debug_log'):
+        r['stats']['debug_log_cells'] = r['stats'].get('cells', 0)
+        if r.get('key'):
+            r['key'] = 'dbg-' + r['key']
+        for v in r['violations']:
+            v['mech']['debug_log'] = True
+    return r
+
+
+def _run_case(case):
     t = case['type']
     if t == 'manager':
         viol, stats, keys = run_manager_cells(case)
